@@ -78,36 +78,36 @@ impl Dictionary {
 
         // fix up offsets
         for offset in &mut dict.block_offsets {
-            *offset = *offset + map_start + map_size;
+            *offset = offset.checked_add(map_start + map_size)?;
         }
 
         for i in 0..dict.block_lengths[0] / 2 {
-            let offset = dict.block_offsets[0] + i * 2;
-            cursor.seek(SeekFrom::Start(offset as u64)).ok()?;
+            let offset = dict.block_offsets[0] as u64 + i as u64 * 2;
+            cursor.seek(SeekFrom::Start(offset)).ok()?;
             dict.begin_node.push(cursor.read_le::<u16>().ok()?);
         }
 
         for i in 0..dict.block_lengths[1] / 2 {
-            let offset = dict.block_offsets[1] + i * 2;
-            cursor.seek(SeekFrom::Start(offset as u64)).ok()?;
+            let offset = dict.block_offsets[1] as u64 + i as u64 * 2;
+            cursor.seek(SeekFrom::Start(offset)).ok()?;
             dict.inner_node.push(cursor.read_le::<u16>().ok()?);
         }
 
         for i in 0..dict.block_lengths[2] / 2 {
-            let offset = dict.block_offsets[2] + i * 2;
-            cursor.seek(SeekFrom::Start(offset as u64)).ok()?;
+            let offset = dict.block_offsets[2] as u64 + i as u64 * 2;
+            cursor.seek(SeekFrom::Start(offset)).ok()?;
             dict.chara.push(cursor.read_le::<u16>().ok()?);
         }
 
         for i in 0..dict.block_lengths[3] / 2 {
-            let offset = dict.block_offsets[3] + i * 2;
-            cursor.seek(SeekFrom::Start(offset as u64)).ok()?;
+            let offset = dict.block_offsets[3] as u64 + i as u64 * 2;
+            cursor.seek(SeekFrom::Start(offset)).ok()?;
             dict.word.push(cursor.read_le::<u16>().ok()?);
         }
 
         for i in 0..dict.block_lengths[4] / 16 {
-            let offset = dict.block_offsets[4] + i * 16;
-            cursor.seek(SeekFrom::Start(offset as u64)).ok()?;
+            let offset = dict.block_offsets[4] as u64 + i as u64 * 16;
+            cursor.seek(SeekFrom::Start(offset)).ok()?;
             dict.entries.push(cursor.read_le::<EntryItem>().ok()?);
         }
 
@@ -131,7 +131,7 @@ impl Dictionary {
             }
 
             let chara = Dictionary::index_to_rune(&lut, id as u32);
-            self.dump_dict_node(&mut result, *v as i32, String::from(chara as u8 as char))
+            self.dump_dict_node(&mut result, *v as i32, String::from(chara as u8 as char), 1)?;
         }
 
         Some(result)
@@ -161,11 +161,23 @@ impl Dictionary {
         }
     }
 
-    fn dump_dict_node(&self, vec: &mut Vec<String>, entry_id: i32, prev: String) {
-        let node = &self.header.entries[entry_id as usize];
+    /// Lists the words below an entry. Returns `None` if the tables point outside themselves or in a circle.
+    fn dump_dict_node(
+        &self,
+        vec: &mut Vec<String>,
+        entry_id: i32,
+        prev: String,
+        depth: usize,
+    ) -> Option<()> {
+        // a path with more entries than the table has visits one of them twice
+        if depth > self.header.entries.len() {
+            return None;
+        }
+
+        let node = self.header.entries.get(entry_id as usize)?;
         for i in 0..node.sibling {
             let Some(current) = self.get_string(entry_id, i as i32) else {
-                return;
+                return Some(());
             };
 
             if node.child == 0 {
@@ -173,14 +185,19 @@ impl Dictionary {
                 continue;
             }
 
-            let value = self.header.inner_node[(node.child + i) as usize];
+            let value = *self
+                .header
+                .inner_node
+                .get((node.child as usize).checked_add(i as usize)?)?;
             if value == 0 {
                 vec.push(prev.clone() + &current);
                 continue;
             }
 
-            self.dump_dict_node(vec, value as i32, prev.clone() + &current);
+            self.dump_dict_node(vec, value as i32, prev.clone() + &current, depth + 1)?;
         }
+
+        Some(())
     }
 
     fn get_string(&self, entry_id: i32, sibling_id: i32) -> Option<String> {
@@ -199,19 +216,19 @@ impl Dictionary {
         let entry = self.header.entries.get(entry_id as usize)?;
 
         if entry.flag == 0 {
-            let pos = (entry.offset / 2) as i32 + sibling_id;
-            if pos as usize > self.header.chara.len() {
+            let pos = usize::try_from((entry.offset / 2) as i64 + sibling_id as i64).ok()?;
+            let character = *self.header.chara.get(pos)?;
+            if character == 0 {
                 return None;
             }
 
-            if self.header.chara[pos as usize] == 0 {
-                return None;
-            }
-
-            return Some(vec![self.header.chara[pos as usize]]);
+            return Some(vec![character]);
         }
 
         let begin = entry.offset / 2;
+        if begin as usize >= self.header.word.len() {
+            return None;
+        }
         let mut end = begin + 1;
 
         while (end as usize) < self.header.word.len() && self.header.word[end as usize] != 0 {
